@@ -41,6 +41,7 @@ inductive TrapKind
   | oobTable      -- `call_indirect` with index ≥ table size
   | nullTable     -- `call_indirect` on a null element
   | sigMismatch   -- `call_indirect` with a different type
+  | unaligned     -- an atomic access at an in-bounds address that is not a multiple of its width
 deriving DecidableEq, Repr, Inhabited
 
 /-- Documented error class per trapping instruction (WebAssembly spec trap ↔ wasmruntime error). -/
@@ -55,6 +56,7 @@ def TrapKind.cls : TrapKind → ErrClass
   | .oobTable => .invalidTable
   | .nullTable => .invalidTable
   | .sigMismatch => .typeMismatch
+  | .unaligned => .unalignedAtomic
 
 inductive PanicKind | err | str | val
 deriving DecidableEq, Repr, Inhabited
